@@ -579,7 +579,7 @@ def check_C04(tier, seed, replay=None):
                           "AggFloat.v (sum, max, min, count, avg, group, stddev, stdvar, quantile; transcribed from scalar_table.go) on the operand "
                           "stream of the engine's own operator tree vs the engine's result for <agg> [by (non-empty) | without (..)] "
                           "(selector), bit for bit", 40, 400, shards_quick=8, shards_thorough=32)
-    return ref_family_check("C04", tier, seed, [("agg", 4000), ("epoch:agg", 500), ("nans", 800), ("upper", 600)], [("agg", 80000), ("noties", 20000), ("epoch:agg", 10000), ("nans", 20000), ("upper", 10000)],
+    return ref_family_check("C04", tier, seed, [("agg", 4000), ("epoch:agg", 500), ("nans", 800), ("upper", 600), ("dist", "agg", 600)], [("agg", 80000), ("noties", 20000), ("epoch:agg", 10000), ("nans", 20000), ("upper", 10000), ("dist", "agg", 10000)],
                             corr=_corr_multi(corr, corr2, corr3))
 
 
@@ -588,7 +588,7 @@ def check_C05(tier, seed, replay=None):
                          "labels, many-to-many errors) on the operand streams of the engine's own operator trees vs the engine's result "
                          "for `L op R` over selectors (arithmetic and comparison operators on primitive floats, on/ignoring, "
                          "group_left/group_right with included labels, bool)", 40, 400, shards_quick=8, shards_thorough=32)
-    return ref_family_check("C05", tier, seed, [("bin", 4000), ("epoch:bin", 600)], [("bin", 80000), ("deep", 20000), ("epoch:bin", 15000)], corr=corr)
+    return ref_family_check("C05", tier, seed, [("bin", 4000), ("epoch:bin", 600), ("opt", "subpairs", 800)], [("bin", 80000), ("deep", 20000), ("epoch:bin", 15000), ("opt", "subpairs", 15000)], corr=corr)
 
 
 def check_C06(tier, seed, replay=None):
